@@ -40,6 +40,26 @@ def build_discrete(case):
     def init_proposal(obs, prev):
         categorical(Q[prev, obs["y"]]) @ "z"
 
+    if case.get("nested"):
+        # the same model with latent and observation under one shared top-level address "s" (nested @gen call): the
+        # proposal's choices {"s": {"z"}} and the constraints {"s": {"y"}} must be merged recursively
+        @gen
+        def nmodel(prev):
+            return model(prev) @ "s"
+
+        @gen
+        def qz(y, prev):
+            categorical(Q[prev, y]) @ "z"
+
+        @gen
+        def nproposal(obs, old_choices, prev):
+            qz(obs["s"]["y"], prev) @ "s"
+
+        @gen
+        def ninit_proposal(obs, prev):
+            qz(obs["s"]["y"], prev) @ "s"
+
+        return nmodel, nproposal, ninit_proposal
     return model, proposal, init_proposal
 
 
@@ -117,8 +137,19 @@ def obs_at(case, t):
     import jax.numpy as jnp
 
     if case["family"] == "D":
-        return {"y": jnp.asarray(np.int32(case["obs"][t]))}
+        o = {"y": jnp.asarray(np.int32(case["obs"][t]))}
+        return {"s": o} if case.get("nested") else o
     return {"y": jnp.asarray(np.float32(case["obs"][t]))}
+
+
+def latent(case, choices, name):
+    return choices["s"][name] if case.get("nested") else choices[name]
+
+
+def zsel(case):
+    from genjax import sel
+
+    return sel(("s", "z")) if case.get("nested") else sel("z")
 
 
 def prev0(case):
@@ -150,7 +181,7 @@ def run_pipeline(case, key, check=False):
         return np.asarray(x)[i]
 
     def check_move(name, old_lw, new_parts, y):
-        zs = np.asarray(new_parts.traces.get_choices()["z"])
+        zs = np.asarray(latent(case, new_parts.traces.get_choices(), "z"))
         prevs = np.asarray(jax.tree_util.tree_leaves(new_parts.traces.get_args()[0])[0]) if not isinstance(new_parts.traces.get_args()[0], tuple) else np.asarray(new_parts.traces.get_args()[0][0])
         lw = np.asarray(new_parts.log_weights, dtype=np.float64)
         for i in range(N):
@@ -160,7 +191,7 @@ def run_pipeline(case, key, check=False):
             if not abs(lw[i] - want) <= 2e-4 + 2e-5 * abs(want):
                 fails.append((f"particle_weight_after_{name}:{C}", f"particle {i}: log weight {lw[i]} != previous {old_lw[i] if old_lw is not None else 0.0} + log p(choices, obs)/q(choices) increment {inc} (z={zs[i]}, prev={pv}, y={y})"))
                 return
-        ys_recorded = np.asarray(new_parts.traces.get_choices()["y"])
+        ys_recorded = np.asarray(latent(case, new_parts.traces.get_choices(), "y"))
         if not np.all(ys_recorded == (np.float32(y) if case["family"] == "G" else y)):
             fails.append((f"observation_not_installed:{C}", f"after {name}: particles' y = {ys_recorded.tolist()} != observation {y}"))
 
@@ -186,13 +217,13 @@ def run_pipeline(case, key, check=False):
                 if not abs(lml - old_lml) <= 1e-4 + 1e-5 * abs(old_lml):
                     fails.append((f"estimate_changed_by_resample:{C}", f"{old_lml} -> {lml}"))
         elif mv == "rejuvenate":
-            parts = seed(lambda p: S.rejuvenate(p, lambda tr: mh(tr, sel("z"))))(k, parts)
+            parts = seed(lambda p: S.rejuvenate(p, lambda tr: mh(tr, zsel(case))))(k, parts)
             if check:
                 if not np.array_equal(np.asarray(parts.log_weights, dtype=np.float64), old_lw):
                     fails.append((f"rejuvenate_changed_weights:{C}", f"{old_lw.tolist()} -> {np.asarray(parts.log_weights).tolist()}"))
                 if not np.array_equal(np.asarray(parts.diagnostic_weights), old_diag):
                     fails.append((f"rejuvenate_changed_diagnostic_weights:{C}", ""))
-                if not np.all(np.asarray(parts.traces.get_choices()["y"]) == (np.float32(case["obs"][t - 1]) if case["family"] == "G" else case["obs"][t - 1])):
+                if not np.all(np.asarray(latent(case, parts.traces.get_choices(), "y")) == (np.float32(case["obs"][t - 1]) if case["family"] == "G" else case["obs"][t - 1])):
                     fails.append((f"rejuvenate_touched_observation:{C}", ""))
         elif mv == "change":
             parts = seed(lambda p, r: S.change(p, model, (r,), lambda ch: ch))(k, parts, p0) if False else parts
@@ -200,7 +231,7 @@ def run_pipeline(case, key, check=False):
             break
     if check:
         return fails, t
-    return parts.log_marginal_likelihood(), parts.traces.get_choices()["z"], parts.log_weights, parts, t
+    return parts.log_marginal_likelihood(), latent(case, parts.traces.get_choices(), "z"), parts.log_weights, parts, t
 
 
 def n_extends(case):
@@ -288,11 +319,13 @@ def classify_rsmc(case, ctx=None, n1=3000):
     C = f"rejuvenation_smc:{case['family']}:{'custom' if custom else 'default'}{':kernel' if kern else ''}"
     fails, info = [], {"api": "rejuvenation_smc", "N": N}
     obs = {"y": jnp.asarray(np.asarray(case["obs"], dtype=np.int32 if case["family"] == "D" else np.float32))}
+    if case.get("nested"):
+        obs = {"s": obs}
     Tn = len(case["obs"])
     c = ctx if ctx is not None else type("C", (), {"stat_tests": 0, "stat_stage2": 0})()
 
     def run(all_particles):
-        return S.rejuvenation_smc(model, proposal if custom else None, const(lambda tr: mh(tr, sel("z"))) if kern else None, obs, (prev0(case),), const(N),
+        return S.rejuvenation_smc(model, proposal if custom else None, const(lambda tr: mh(tr, zsel(case))) if kern else None, obs, (prev0(case),), const(N),
                                   const(all_particles), const(case["n_moves"]))
 
     try:
@@ -348,7 +381,7 @@ def cases():
     def disc(draw):
         K, M = draw(st.integers(2, 3)), draw(st.integers(2, 3))
         Tn = draw(st.integers(1, 4))
-        return {"family": "D", "T": [[draw(lg) for _ in range(K)] for _ in range(K)], "E": [[draw(lg) for _ in range(M)] for _ in range(K)],
+        return {"family": "D", "nested": draw(st.booleans()), "T": [[draw(lg) for _ in range(K)] for _ in range(K)], "E": [[draw(lg) for _ in range(M)] for _ in range(K)],
                 "Q": [[[draw(lg) for _ in range(K)] for _ in range(M)] for _ in range(K)], "obs": [draw(st.integers(0, M - 1)) for _ in range(Tn)]}
 
     @st.composite
@@ -383,6 +416,8 @@ def one_case(ctx, case):
         fails, info = classify_rsmc(case, ctx, P["n1"])
         nt = len(case["obs"]) >= 2 or case["custom"]
         cls = ["C10.rejuvenation_smc"] + (["C10.rsmc_with_kernel"] if case["kernel"] else [])
+    if case.get("nested"):
+        cls.append("C10.nested_addresses")
     cls += [f"C10.family_{case['family']}", f"C10.proposal_{'custom' if case['custom'] else 'default'}", f"C10.N_{case['N'] if case['N'] <= 2 else 'many'}"]
     ctx.case(case, bool(nt), cls, sample={**case, "info": info})
     for b, w in fails:
